@@ -270,6 +270,16 @@ func runExc(c excCase) harness.Result {
 			}
 		}
 	}
+	// handed directly to a per-function response parser (a caller that knows which function it asked for), an exception frame is still
+	// not a response
+	for _, fc := range spec.Functions {
+		p := cat.ResponseParser(c.Framing, fc)
+		if v, err := p.Fn(append([]byte(nil), frame...)); err == nil {
+			return harness.Fail("%s returned a response %+v (no error) for the exception frame %x", p.Name, v, frame)
+		} else if !cat.IsNilValue(v) {
+			return harness.Fail("%s returned value %v together with error %v for the exception frame %x", p.Name, v, err, frame)
+		}
+	}
 	// the exported recognisers agree
 	err := recognise(c.Framing, append([]byte(nil), frame...))
 	if err == nil {
